@@ -171,7 +171,10 @@ func VerifHarness_C14_requests() {
 			verifrt.Reach("C14.event.check")
 		case 3: // a processed block confirms tx0: cleanup on every connection
 			k := 0
-			ids := []*bitcoin.Hash32{&txids[k]}
+			// the cleanup gets every txid of the block: the coinbase (never announced) comes first
+			var coinbase bitcoin.Hash32
+			coinbase[0], coinbase[31] = 0xcb, 0x01
+			ids := []*bitcoin.Hash32{&coinbase, &txids[k]}
 			for _, c := range conns {
 				c.tracker.RemoveList(ctx, ids)
 			}
